@@ -17,11 +17,11 @@ _T = 'bounded symbolic execution of the real functions (clang IR -> ir2c -> CBMC
 _N = 'Trusted base: clang++-14 lowering, tools/ir2c.py (differentially tested against the g++ build on every run), CBMC 6.11 + SAT back ends, allocation model (fixed-size chunks, allocation never fails), harness preconditions listed per obligation in the evidence. '
 CLAIMED = {
  'C01': {
-  'text': 'Solver verdicts on the value-coding kernels of the round trip: array zig-zag, delta predictor + wrap transform encoder->stream->decoder for ALL int32 inputs, parallelogram predictor recompute lemma and monolithic encoder->decoder round trip over an arbitrary in-range corner table. Whole-geometry round trips (connectivity, traversal, option dispatch) are outside the claim.',
+  'text': 'Solver verdicts on the value-coding kernels of the round trip: array zig-zag, delta predictor + wrap transform encoder->stream->decoder for ALL int32 inputs, parallelogram predictor recompute lemma and monolithic encoder->decoder round trip (parallelogram, multi-parallelogram) over an arbitrary in-range corner table; the real sequential connectivity encoder <-> decoder on real Mesh objects for every number of points up to 2^22; the kd-tree signed <-> unsigned conversion between the real encoder and decoder for any int32 values (found and, after the fix, proves the absence of the undecodable-range defect). Whole-geometry round trips (Edgebreaker / kd-tree cores, traversal, option dispatch) are outside the claim.',
   'design_ref': 'DESIGN.md 3/C01', 'technique': _T,
   'note': _N + 'Bounds: <=4 entries, <=2 components, 2 faces. Composition (prediction + transform + entropy coding => values survive) is argued in DESIGN.md, not machine checked.'},
  'C02': {
-  'text': 'UB-instrumented bounded model checking (pointer/bounds/overflow/shift checks on every load, store and arithmetic instruction of the real code) of the parsing primitives on arbitrary bytes with symbolic length, from an arbitrary buffer position: DecoderBuffer Decode/Peek/bit mode, DecodeVarint all widths. Decoders built on corner tables / point clouds are outside the claim.',
+  'text': 'UB-instrumented bounded model checking (pointer/bounds/overflow/shift checks on every load, store and arithmetic instruction of the real code) of the parsing primitives on arbitrary bytes with symbolic length, from an arbitrary buffer position: DecoderBuffer Decode/Peek/bit mode, DecodeVarint all widths, rANS table parsing, bit decoders; decoder-side kernels for ANY int32 predictions/corrections (wrap and octahedron transforms, parallelogram predictors over an arbitrary table, kd-tree output iterator, kd-tree signed back-transformation on a real attribute). Found and, after the fixes, proves the absence of two signed-overflow defects. Edgebreaker traversal, kd-tree core and attribute controllers are outside the claim.',
   'design_ref': 'DESIGN.md 3/C02', 'technique': _T + '; non-speculating IR flavour with UB assertions',
   'note': _N + 'Bounds: 8..12 input bytes, recursion/loops unwound with unwinding assertions.'},
  'C03': {
